@@ -51,8 +51,21 @@ Proof. split; vm_compute; reflexivity. Qed.
 Definition expiry_row_ok (row : N * bool * (bool * bool)) : bool :=
   let '(_, past, (isexp, isvalid)) := row in Bool.eqb isexp past && Bool.eqb isvalid (negb past).
 Lemma expiry_boundary_matches_code :
-  length expiry_table = 16%nat /\ forallb expiry_row_ok expiry_table = true /\
-  existsb (fun row => let '(off, past, _) := row in past && N.eqb off 1) expiry_table = true.
+  length expiry_table = 19%nat /\ forallb expiry_row_ok expiry_table = true /\
+  existsb (fun row => let '(off, past, _) := row in past && N.eqb off 1) expiry_table = true /\
+  existsb (fun row => let '(off, past, _) := row in past && N.leb 60000000000000 off) expiry_table = true.
+Proof. repeat split; vm_compute; reflexivity. Qed.
+
+(* how a mapping BECOMES revoked: the real PortMapping.Revoke on every status x expiry x caller (regenerated). A revocation that
+   reports success leaves the mapping revoked and invalid, and it stays invalid and inaccessible when its status is set back to
+   active afterwards (pause / revoke / resume): MRevoked in the model is absorbing under status changes. *)
+Definition revoke_row_ok (row : (N * bool * N) * (bool * bool * bool * (bool * bool * bool))) : bool :=
+  let '((st, ex, caller), (ok, rev, valid, (valid2, accl, acct))) := row in
+  (negb ok || (rev && negb valid && negb valid2 && negb accl && negb acct)).
+Lemma revoke_matches_code :
+  length revoke_table = 18%nat /\ forallb revoke_row_ok revoke_table = true /\
+  (* not vacuous: for every status some caller's revocation is reported as done *)
+  forallb (fun st => existsb (fun row => let '((st', _, _), (ok, _, _, _)) := row in N.eqb st st' && ok) revoke_table) [0; 1; 2] = true.
 Proof. repeat split; vm_compute; reflexivity. Qed.
 
 (* the table driven through the real dispatcher has exactly the cells of Model.all_cells *)
